@@ -53,6 +53,12 @@ CONSTANTS MaxSteps,    \* bound on the length of a history
 \* storage in the interpreter (pointers taken before stop aliasing it).  Pinned in the
 \* exhaustive tier, excluded from the random tier, where it would end every history it occurs in.
 Excluded_F_C04_1 == "F_C04_1" \in Excl
+\* F-C04-2: a value of a struct type with methods stored in an interface{} is not copied.
+Excluded_F_C04_2 == "F_C04_2" \in Excl
+\* F-C04-3: a method value keeps its receiver EXPRESSION and evaluates it when called: the
+\* value receiver is not copied at bind time when the operand is addressable, and a pointer
+\* receiver reached through a pointer variable follows later assignments to that variable.
+Excluded_F_C04_3 == "F_C04_3" \in Excl
 
 MaxLen == 4            \* slices never grow beyond 4 elements (bounds every growing value)
 
@@ -342,14 +348,17 @@ Inst(kd, ev) ==
                      /\ (fv.k = "fn" /\ fv.code = "ref") => (Rd(mem, fv.pl).ok /\ Rd(mem, fv.pl).addr)}}
     [] kd = "Box" ->
         IF "e" \notin Roots THEN {}
-        ELSE UNION {{[Op(kd) EXCEPT !.s = s, !.x = T] : s \in {q \in Pl(T) : ev[q].ok}} : T \in {"A", "S", "L"}}
+        ELSE UNION {{[Op(kd) EXCEPT !.s = s, !.x = T] : s \in {q \in Pl(T) : ev[q].ok}} :
+                      T \in (IF Excluded_F_C04_2 THEN {"A", "L"} ELSE {"A", "S", "L"})}
     [] kd = "Unbox" ->
         IF "e" \notin Roots \/ mem[Id("e")].k = "nil" THEN {}
         ELSE {[Op(kd) EXCEPT !.d = d, !.s = [r |-> "e", sel |-> <<>>], !.x = mem[Id("e")].t] :
                 d \in {q \in Pl(mem[Id("e")].t) : AddrE(ev, q)}}
     [] kd = "BindMV" ->
-        {[Op(kd) EXCEPT !.d = pr[1], !.s = pr[2], !.x = "sum"] : pr \in {q \in Pl("F") \X Pl("S") : ev[q[2]].ok}}
-        \cup {[Op(kd) EXCEPT !.d = pr[1], !.s = pr[2], !.x = "pinc"] : pr \in {q \in Pl("F") \X Pl("S") : AddrE(ev, q[2])}}
+        {[Op(kd) EXCEPT !.d = pr[1], !.s = pr[2], !.x = "sum"] :
+            pr \in {q \in Pl("F") \X Pl("S") : ev[q[2]].ok /\ (Excluded_F_C04_3 => ~ev[q[2]].addr)}}
+        \cup {[Op(kd) EXCEPT !.d = pr[1], !.s = pr[2], !.x = "pinc"] :
+            pr \in {q \in Pl("F") \X Pl("S") : AddrE(ev, q[2]) /\ (Excluded_F_C04_3 => ~HasDeref(q[2]))}}
     [] OTHER -> {}
 
 -------------------------------------------------------------------------------
@@ -531,8 +540,9 @@ Next ==
 \* successor STATES would be dominated by the kinds with many instances)
 NextSim ==
     /\ Len(hist) < MaxSteps
-    /\ \E ev \in {EvalAll} : LET ks == {kd \in Kinds : Inst(kd, ev) # {}} IN
-          ks # {} /\ \E kd \in {RandomElement(ks)} : \E op \in {RandomElement(Inst(kd, ev))} : Do(op, ev)
+    /\ \E ev \in {EvalAll} : \E kd \in {RandomElement(Kinds)} : \E I \in {Inst(kd, ev)} :
+          IF I # {} THEN \E op \in {RandomElement(I)} : Do(op, ev)
+          ELSE \E J \in {Inst("Make", ev)} : J # {} /\ \E op \in {RandomElement(J)} : Do(op, ev)
 
 Spec    == Init /\ [][Next]_vars
 SpecSim == Init /\ [][NextSim]_vars
